@@ -71,7 +71,7 @@ CLAIMED = {
         note=BASE + 'The walks over ANTLR parse trees and the ANTLR front end are bounded only. Known findings C01_cardinality_like_list, C01_string_with_dot (lexer of the dependency). str.replace modelled for one-character patterns.'),
     'C02': dict(category='other', design_ref='DESIGN.md section 4 C02, section 9',
         text='Proved for all heaps: the model-side mutators every reader builds trees with -- add_relation (every child adopts the owner; the relation list '
-             'grows by exactly that relation), add_attribute, add_child, set_parent -- including their frames (field-granular modifies); the FeatureIDE reader returns constraint trees in the library form for every rule element (contract shared with C09). Bounded: '
+             'grows by exactly that relation), add_attribute, add_child, set_parent -- including their frames (field-granular modifies); the FeatureIDE reader returns constraint trees in the library form for every rule element (contract shared with C09); Constraint.get_features returns exactly the names written in the constraint, each once, for every tree without aggregate functions (loop invariant over the explicit stack and the set of collected names; contract shared with C18). Bounded: '
              'documents written by the library and by independent emitters for the six readers: tree well-formedness, constraint-tree form, get_features.',
         note=BASE + 'Reader walks are bounded only. Known finding C02_aggregate_features.'),
     'C04': dict(category='other', design_ref='DESIGN.md section 4 C04, section 9',
